@@ -183,3 +183,20 @@ Theorem C15_collapse_to_base_boundary_removes_cell `{Sig} : forall E n ks pe e n
   (forall y, unused w' y = if (y =? pe) || (y =? e) || (y =? ne) then true else unused w y).
 Proof. exact halfcell_to_base_boundary. Qed.
 Print Assumptions C15_collapse_to_base_boundary_removes_cell.
+
+(** ... and the same half-cell when its next edge is glued to q, a dart of the face ... -> p0 -> q -> p1 -> ...: the
+    darts e, ne and q disappear (every image null, flagged unused) and pe takes the place of q in the neighbouring
+    face; the 2-image of pe and every other image and flag are as they were.  On every store. *)
+Theorem C15_collapse_to_base_inner_merges_cell `{Sig} : forall E n ks pe e ne c w cnt w' cnt',
+  let q := beta w 2 ne in let p0 := beta w 0 q in let p1 := beta w 1 q in
+  NoDup [pe; e; ne; q; p0; p1] -> ~ In 0 [pe; e; ne; q; p0; p1] ->
+  beta w 1 pe = e -> beta w 1 e = ne -> beta w 1 ne = pe -> beta w 1 p0 = q -> beta w 2 e = 0 ->
+  run E (collapse_halfcell_to_base n ks pe e ne) c w cnt = (Done tt, w', cnt') ->
+  (forall i y, beta w' i y =
+     if (y =? e) || (y =? ne) || (y =? q) then (if i <? 3 then 0 else beta w i y)
+     else if (i =? 1) && (y =? pe) then p1 else if (i =? 0) && (y =? pe) then p0
+     else if (i =? 1) && (y =? p0) then pe else if (i =? 0) && (y =? p1) then pe
+     else beta w i y) /\
+  (forall y, unused w' y = if (y =? e) || (y =? ne) || (y =? q) then true else unused w y).
+Proof. exact halfcell_to_base_inner. Qed.
+Print Assumptions C15_collapse_to_base_inner_merges_cell.
